@@ -1039,6 +1039,18 @@ class Interp:
             if hasattr(src, 'm_mutable_copy') and src.concrete_len(self) is None:
                 return src.m_mutable_copy(self)
             return NOTFOUND
+        if (getattr(self, 'filter_views', False) and isinstance(g.target, ast.Name) and len(g.ifs) <= 1 and len(e.generators) == 1
+                and isinstance(e.elt, ast.Subscript) and isinstance(e.elt.slice, ast.Name) and e.elt.slice.id == g.target.id and isinstance(e.elt.value, ast.Name)):
+            # [D[x] for x in L (if P(x))]: filter view of L, then the element-wise image under the abstract map D
+            try:
+                d = self.lookup_name(e.elt.value.id, env, module)
+            except Unsupported:
+                d = None
+            src = self.eval(g.iter, env, module)
+            if d is not None and hasattr(d, 'm_map_view') and hasattr(src, 'm_filter_view') and src.concrete_len(self) is None:
+                fv = self._filter_view(src, g.target.id, g.ifs[0], env, module) if g.ifs else src
+                return d.m_map_view(self, fv)
+            return NOTFOUND
         if not (isinstance(g.target, ast.Name) and isinstance(e.elt, ast.Name) and e.elt.id == g.target.id and len(g.ifs) == 1):
             return NOTFOUND
         c = g.ifs[0]
@@ -1052,20 +1064,42 @@ class Interp:
         if getattr(self, 'filter_views', False) and hasattr(src, 'm_filter_view') and src.concrete_len(self) is None:
             # [x for x in L if P(x)] over a label list of symbolic length: P is evaluated once on a fresh label (it must not
             # branch) and becomes the predicate of an order-preserving filter view
-            lam = self.ctx.fresh(LabelSort, 'lam')
-            env2 = {'__parent__': env, '__qualname__': env.get('__qualname__', '')}
-            env2[g.target.id] = Sym(lam)
-            before = self.ctx.decisions
-            p = self.truth(self.eval(c, env2, module))
-            if self.ctx.decisions != before:
-                raise Unsupported('filter predicate of a comprehension branches on the element')
-            pt = z3.BoolVal(p) if isinstance(p, bool) else p
-            return src.m_filter_view(self, lambda l, pt=pt, lam=lam: z3.substitute(pt, (lam, l)))
+            return self._filter_view(src, g.target.id, c, env, module)
         if not hasattr(src, 'm_listcomp_filter_neq'):
             if isinstance(src, Model):
                 raise Unsupported('comprehension over ' + type(src).__name__)
             return NOTFOUND
         return NOTFOUND
+
+    def _filter_view(self, src, var, cond, env, module):
+        """filter view of the label list src by the condition `cond` over the comprehension variable `var`: the condition is
+        evaluated once, on a fresh label that is assumed to be an element of src, in a scratch path context (so that this
+        assumption does not leak); it must not branch"""
+        _Ctx = Ctx
+        lam = self.ctx.fresh(LabelSort, 'lam')
+        env2 = {'__parent__': env, '__qualname__': env.get('__qualname__', '')}
+        env2[var] = Sym(lam)
+        real = self.ctx
+        scratch = _Ctx([])
+        scratch.fresh_n = real.fresh_n + 10 ** 6          # fresh names of the scratch evaluation never clash with the path's
+        for f in real.pc:
+            scratch.assume(f)
+        cnt = src.count(lam) if hasattr(src, 'count') else None
+        if cnt is not None:
+            scratch.assume(cnt > 0)
+        for a in ('ghostG', 'ghostY', 'uuid_labels', 'universals'):
+            if hasattr(real, a):
+                setattr(scratch, a, getattr(real, a))
+        self.ctx = scratch
+        try:
+            p = self.truth(self.eval(cond, env2, module))
+            branched = scratch.decisions != 0
+        finally:
+            self.ctx = real
+        if branched:
+            raise Unsupported('filter predicate of a comprehension branches on the element')
+        pt = z3.BoolVal(p) if isinstance(p, bool) else p
+        return src.m_filter_view(self, lambda l, pt=pt, lam=lam: z3.substitute(pt, (lam, l)))
 
     def comprehension(self, gens, i, env, module, emit):
         if i == len(gens):
@@ -1646,6 +1680,10 @@ class Interp:
                         return self.call(f, [b, a], {})
         if isinstance(a, Opaque) or isinstance(b, Opaque):
             return a if isinstance(a, Opaque) else b
+        if T is ast.Add and (isinstance(a, Model) or isinstance(b, Model)) and hasattr(self, 'concat_label_lists'):
+            r = self.concat_label_lists(a, b)
+            if r is not NOTFOUND:
+                return r
         sym = isinstance(a, Sym) or isinstance(b, Sym)
         if not sym:
             if isinstance(a, VList) and isinstance(b, VList) and T is ast.Add:
